@@ -74,6 +74,10 @@ pub struct Seg {
     /// capture on the wire shows for short segments), n >= 2 = n-1 arbitrary trailer bytes (FCS, vendor trailers)
     #[serde(default)]
     pub trailer: u8,
+    /// IPv6 only: extension headers between the fixed header and TCP, by their next-header codes in order
+    /// (0 hop-by-hop, 60 destination options, 43 routing), eight bytes each
+    #[serde(default)]
+    pub v6_ext: Vec<u8>,
 }
 
 impl Seg {
@@ -96,6 +100,7 @@ impl Seg {
             urg_ptr: 0,
             eth: vec![],
             trailer: 0,
+            v6_ext: vec![],
         }
     }
 }
@@ -201,11 +206,21 @@ pub fn ip_bytes(s: &Seg) -> Vec<u8> {
             let mut p = Vec::with_capacity(40 + tcp.len());
             let w0: u32 = (6u32 << 28) | ((s.tos as u32) << 20) | (s.flow_label & 0xfffff);
             p.extend_from_slice(&w0.to_be_bytes());
-            p.extend_from_slice(&(tcp.len().min(65535) as u16).to_be_bytes());
-            p.push(6);
+            p.extend_from_slice(&((tcp.len() + 8 * s.v6_ext.len()).min(65535) as u16).to_be_bytes());
+            p.push(s.v6_ext.first().copied().unwrap_or(6));
             p.push(s.ttl);
             p.extend_from_slice(&a.octets());
             p.extend_from_slice(&b.octets());
+            for (i, code) in s.v6_ext.iter().enumerate() {
+                let next = s.v6_ext.get(i + 1).copied().unwrap_or(6);
+                if *code == 43 {
+                    // routing header, type 0 numbering aside: no segments left
+                    p.extend_from_slice(&[next, 0, 4, 0, 0, 0, 0, 0]);
+                } else {
+                    // hop-by-hop / destination options: one PadN option filling the header
+                    p.extend_from_slice(&[next, 0, 1, 4, 0, 0, 0, 0]);
+                }
+            }
             p.extend_from_slice(&tcp);
             p
         }
